@@ -51,6 +51,9 @@ def e2e_configs(tier):
         # tracers / meters / loggers of the empty scope, equal-but-distinct scopes (S1=S2), other schema URL (S4)
         cfgs.append(dict(name="e2e-group-%s" % sig, SIG=sig, MODE="group", MAXITEMS=3 if thorough else 2,
                          RES=["R1", "R2", "R4"], SCOPES=["S0", "S1", "S2", "S4"], pipes=2 if thorough else 1))
+        # tracers / meters / loggers with an empty name but a version / schema URL / attributes
+        cfgs.append(dict(name="e2e-group3-%s" % sig, SIG=sig, MODE="group", MAXITEMS=2,
+                         RES=["R1", "R2"], SCOPES=["S0", "S7", "S8", "S9", "S10", "S11"], pipes=2 if thorough else 1))
         if thorough:
             cfgs.append(dict(name="e2e-group2-%s" % sig, SIG=sig, MODE="group", MAXITEMS=2,
                              RES=["R3", "R5", "R7"], SCOPES=["S1", "S3", "S5", "S6", "S7"], pipes=3))
@@ -69,6 +72,9 @@ def configs(tier):
         # scopes that differ in exactly one component; empty and absent resources
         cfgs.append(dict(name="group-%s-b" % sig, SIG=sig, MODE="group", MAXITEMS=3 if thorough else 2,
                          RES=["R1", "R5", "R7"], SCOPES=["S1", "S3", "S4", "S5", "S6", "S7"]))
+        # partially empty scopes: no name but a version / a schema URL / attributes / all three; the empty scope; name only
+        cfgs.append(dict(name="group-%s-d" % sig, SIG=sig, MODE="group", MAXITEMS=3 if thorough else 2,
+                         RES=["R1"], SCOPES=["S0", "S7", "S8", "S9", "S10", "S11"]))
         if thorough:
             cfgs.append(dict(name="group-%s-c" % sig, SIG=sig, MODE="group", MAXITEMS=3,
                              RES=["R1", "R2", "R4", "R6"], SCOPES=["S0", "S1", "S2", "S7"]))
@@ -273,7 +279,7 @@ def run(ctx):
     for k in ["pipe_" + p for p in ("bsp-grpc", "ssp-http", "bsp-stdout", "ssp-grpc", "bsp-http", "ssp-stdout", "periodic-grpc",
                                      "manual-http", "periodic-stdout", "manual-grpc", "periodic-http", "manual-stdout", "batch-grpc",
                                      "simple-http", "batch-stdout", "simple-grpc", "batch-http", "simple-stdout")] + \
-            ["batches_equal_distinct_resources", "batches_equal_distinct_scopes", "items_empty_scope"]:
+            ["batches_equal_distinct_resources", "batches_equal_distinct_scopes", "items_empty_scope", "items_partially_empty_scope"]:
         if not ec.get(k):
             ctx.note_inconclusive("vacuity: end-to-end programs never reached %s" % k)
 
@@ -288,7 +294,7 @@ def run(ctx):
     # ---- vacuity: the random driver reached the regimes the statement quantifies over
     rc = counters.get("random", {})
     for k in ("batches_equal_distinct_resources", "batches_equal_distinct_scopes", "batches_multi_group", "batches_over_30_items",
-              "items_empty_scope", "class_cbig", "class_tpre", "class_tzero", "class_kmax", "class_vnan", "class_bdeep", "class_abound"):
+              "items_empty_scope", "items_partially_empty_scope", "class_cbig", "class_tpre", "class_tzero", "class_kmax", "class_vnan", "class_bdeep", "class_abound"):
         if not rc.get(k):
             ctx.note_inconclusive("vacuity: random batches never reached regime %s" % k)
     for k in ("stdout_observed_trace", "stdout_observed_metric", "stdout_observed_log"):
